@@ -227,5 +227,12 @@ func runC08(e *Env) {
 		}
 	}
 	e.R.AddPart(ev.Part{Name: "over-long-durations", Enumerated: "a rest or a chord of 279 620, 279 621, 300 000 and 5 000 000 beats (the delta between two events reaches 2^28 ticks at 279 620.27 beats): refused or well-formed", Executions: int64(len(longs)), Exhaustive: true})
+	runLong(e, 16, func(c *playCase) {
+		for _, n := range []int{1, 3} {
+			cc := *c
+			cc.Cfg.Tracks = n
+			c08Eval(e, &cc, true)
+		}
+	})
 	e.R.Sample(map[string]any{"document": "[triad][rest+text][six-note chord]", "flags": "--track 2 --program 200", "oracle": "either refused, or a format-1 file with 2 chunks, data bytes < 128, one end-of-track per track"})
 }
